@@ -85,8 +85,8 @@ def expectedM : List (String × String) := [
   ("datetime", "ToISOTimeMarshaller"),
   ("time", "ToISOTimeMarshaller"),
   ("timedelta", "ToISOTimeMarshaller"),
-  ("none", "NoOpMarshaller"),
-  ("nonetype", "NoOpMarshaller"),
+  ("none", "NoneTypeMarshaller"),
+  ("nonetype", "NoneTypeMarshaller"),
   ("any", "NoOpMarshaller"),
   ("object", "NoOpMarshaller"),
   ("ellipsis", "NoOpMarshaller"),
